@@ -416,7 +416,7 @@ def cli_verdict_case(rng):
 CLI_CORPUS_KEYS = {
     "C04": ("expectfull",),
     "C05": ("leakcheck", "retmax", "sigint"),
-    "C08": ("maxfail", "igndrop", "failevery", "tdfail", "setupfail", "sigint", "bodyms=30"),
+    "C08": ("maxfail", "igndrop", "failevery", "tdfail", "setupfail", "sigint", "bodyms=30", "profile1"),
     "C09": ("exact=1", "timing=1"),
     "C12": ("exact=1", "meaningmax"),
     "C15": ("mode=file",),
@@ -514,6 +514,9 @@ def cli_corpus():
         c(mode="users", dur=hx("400ms"), conc=2, maxit=10, failevery=5, bodyms=0, expectlimit=1, profile="cpu"),    # a failed run is a failed command with profiling on, too
         c(mode="users", dur=hx("400ms"), conc=2, maxit=10, failevery=5, bodyms=0, expectlimit=1, profile="mem"),
         c(mode="users", dur=d200, conc=2, bodyms=10, tdfail=1, profile="mem"),
+        c(mode="users", dur=d200, conc=2, bodyms=1, maxit=6, expectlimit=1, twice=1, profile1="cpu"),               # D20: a plain command after a profiled one on the same F1
+        c(mode="users", dur=d200, conc=2, bodyms=1, maxit=6, failevery=3, expectlimit=1, twice=1, profile1="cpu"),
+        c(mode="users", dur=d200, conc=2, bodyms=1, maxit=6, expectlimit=1, twice=1, profile1="mem"),
         c(mode="users", dur=hx("600ms"), conc=10, maxit=3, bodyms=5, expectlimit=1, retmax=3000),                  # more users than iterations left: the run still ends
         c(mode="constant", dur=d200, conc=2, raw=hx("--nope")),
         c(mode="constant", dur=d200, conc=2, raw=hx("extra-positional")),
